@@ -127,6 +127,24 @@ def sourceIsXR (p : Patch) : Option Bool :=
   | "ToCompositeFieldPath" | "CombineToComposite" => some false
   | _ => none
 
+/-- source and transforms succeed: the patch reaches the phase that writes the destination -/
+def reachedDest (p : Patch) (src : V) : Bool :=
+  match p.fromPath with
+  | some fp => match getPath src fp with
+    | .ok v => match resolveAll p.xfs v with
+      | .ok _ => true
+      | .error _ => false
+    | .error _ => false
+  | none => false
+
+def wildDest (p : Patch) : Bool :=
+  (p.type == "" || p.type == "FromCompositeFieldPath" || p.type == "ToCompositeFieldPath") &&
+    (match p.toPath with
+     | some tp => containsSub tp.raw "[*]"
+     | none => match p.fromPath with
+       | some fp => containsSub fp.raw "[*]"
+       | none => false)
+
 def runPatch (scn : Json) : Json × Bool × String :=
   let xr := vOf (fld scn "xr")
   let cd := vOf (fld scn "cd")
@@ -142,7 +160,13 @@ def runPatch (scn : Json) : Json × Bool × String :=
     | some false => r.cd == cd
     | none => r.xr == xr && r.cd == cd
   let ok := srcOk && r.err != some .panic
-  (Json.mkObj [("err", errJson r.err), ("xr", xrOut), ("cd", cdOut)], ok,
+  -- the class of an error raised while writing a wildcard destination depends on Go map order
+  let src := if sourceIsXR p == some false then cd else xr
+  let errOut := match r.err with
+    | some .panic => errJson r.err
+    | some _ => if wildDest p && reachedDest p src then Json.str "destErr" else errJson r.err
+    | none => errJson r.err
+  (Json.mkObj [("err", errOut), ("xr", xrOut), ("cd", cdOut)], ok,
     if ok then "" else if srcOk then "C10:panic" else "C10:source-modified")
 
 def runResolve (scn : Json) : Json × Bool × String :=
